@@ -23,6 +23,7 @@
 #include "../common/verif.h"
 #include <tbox/flow/state_machine.h>
 #include <algorithm>
+#include <climits>
 #include <array>
 #include <memory>
 
@@ -37,6 +38,12 @@ enum { MACH, STATE, ROUTE, HANDLER, REENT, START, RUN, STOP, RESTART, INIT, ATTA
 const int kMaxMach = 7, kMaxDepth = 3, kMaxRoutes = 8, kMaxReentPerHook = 3, kMaxCalls = 80, kMaxNews = 8;
 const int FREE = -99;       // "not compared"
 const int kBadState = 9;    // a state id that is never defined
+// State ids: newState() accepts every int; -1 is the documented "invalid state" (findState(-1) never finds it), so
+// it is never declared here.  Other negative ids are ordinary states for newState/addRoute/setInitState and for a
+// handler that returns them; only id 0 is special (terminal).  ids are drawn from kIds (op value 0..7), handler
+// targets from kTo (op value 0..9; -2 and -7 are never states of any machine).
+const int kIds[] = {0, 1, 2, 3, 4, 5, -5, INT_MIN};
+const int kTo[] = {0, 1, 2, 3, 4, 5, -5, INT_MIN, -2, -7};
 const int kToken = 0;       // &kToken is the Event::extra of every run() call
 
 // ------------------------------------------------------------------------------------------------ definition
@@ -147,6 +154,7 @@ struct Ref {
       self_trans = false, stale_sub_parent_handles = false, handler_default = false, user_term = false, trans_in_depth3 = false;
   int transitions = 0, free_results = 0, top_starts = 0;
   bool replaced_handler_asked = false, replaced_default_asked = false;   // the handler consulted had replaced an earlier one
+  bool negative_target_refused = false, negative_refused_route_matches = false, handler_picked_negative_state = false, negative_state_entered = false;
   bool unknown_handler_target = false, late_declared_handler_target = false; int last_unknown_call = -1;
   bool early_route_late0 = false;   // a route registered before newState(0, ...) led into the user-defined state 0
   // run() is documented to return "whether the state changed".  When a sub-machine changed state, thereby
@@ -172,6 +180,7 @@ struct Ref {
     const DState *s = dm.find(dm.init_id);
     if (!s) { if (top) refused_start = true; return false; }
     r.running = true; r.cur = s->id;
+    if (s->id < 0) negative_state_entered = true;
     if (top) ++top_starts;
     if (dm.depth > max_depth_active) max_depth_active = dm.depth;
     if (s->id == 0) user_term = true;
@@ -215,19 +224,21 @@ struct Ref {
       target = hval(*h, e, step, dm);
       bool route_would_match = false;
       for (auto &rt : s->routes) if ((rt.ev == 0 || rt.ev == e) && (!rt.guarded || gval(rt, e, step))) route_would_match = true;
-      if (target > 0 && !dm.find(target)) {
+      if (target != -1 && target != 0 && !dm.find(target)) {
         // The handler picked an id that is not a state of this machine (never declared, or not declared yet): the
         // event is refused -- run() returns false, no route is tried, no action / notification runs, the state is
         // unchanged -- and the machine stays fully usable for every later call.
         unknown_handler_target = true; last_unknown_call = step;
+        if (target < 0) { negative_target_refused = true; if (route_would_match) negative_refused_route_matches = true; }
         res_free = sub_changed;
         return false;
       }
-      if (target > 0 && h->to_unknown_at_reg) late_declared_handler_target = true;
-      if (target >= 0 && route_would_match) override_ = true;
-      if (target < 0 && route_would_match) fallthrough = true;
+      if (target != -1 && target != 0 && h->to_unknown_at_reg) late_declared_handler_target = true;
+      if (target < -1) handler_picked_negative_state = true;
+      if (target != -1 && route_would_match) override_ = true;
+      if (target == -1 && route_would_match) fallthrough = true;
     }
-    if (target < 0) {
+    if (target == -1) {
       int matching = 0, failed_before = 0; bool wild = false, spec = false;
       for (auto &rt : s->routes) if (rt.ev == 0 || rt.ev == e) { ++matching; (rt.ev == 0 ? wild : spec) = true; }
       for (int i = 0; i < (int)s->routes.size(); ++i) {
@@ -252,6 +263,7 @@ struct Ref {
     r.last = from; r.cur = -1;
     if (act) emit(K_ACT, m, from, ridx, e, -1, target, from);
     r.cur = target;
+    if (target < 0) negative_state_entered = true;
     ++transitions;
     if (dm.depth >= 3) trans_in_depth3 = true;
     if (target == from) self_trans = true;
@@ -291,19 +303,19 @@ struct Real {
     const DMach &dm = d->ms[x.m];
     std::string M = "machine " + std::to_string(x.m) + ": ";
     if (x.kind == K_EXIT || x.kind == K_ACT || x.kind == K_ENTER) {
-      if (pend_enter[x.m] >= 0) {
+      if (pend_enter[x.m] != -1) {
         if (!(x.kind == K_ENTER && x.a == pend_enter[x.m]))
           fail(M + "route action was not followed by the enter action of target state " + std::to_string(pend_enter[x.m]) + " but by " + show(x));
         pend_enter[x.m] = -1;
       }
     }
     if (x.kind == K_ENTER) {
-      if (open[x.m] >= 0) { const DState *o = dm.find(open[x.m]); if (o && o->ex) fail(M + "state " + std::to_string(x.a) + " entered while state " + std::to_string(open[x.m]) + " was entered and never exited"); }
+      if (open[x.m] != -1) { const DState *o = dm.find(open[x.m]); if (o && o->ex) fail(M + "state " + std::to_string(x.a) + " entered while state " + std::to_string(open[x.m]) + " was entered and never exited"); }
       open[x.m] = x.a;
     } else if (x.kind == K_EXIT) {
       const DState *s = dm.find(x.a);
       if (s && s->en && open[x.m] != x.a) fail(M + "exit action of state " + std::to_string(x.a) + " without a preceding enter action (entered: " + std::to_string(open[x.m]) + ")");
-      if (open[x.m] >= 0 && open[x.m] != x.a) { const DState *o = dm.find(open[x.m]); if (o && o->ex) fail(M + "state " + std::to_string(x.a) + " exited while state " + std::to_string(open[x.m]) + " is the one entered"); }
+      if (open[x.m] != -1 && open[x.m] != x.a) { const DState *o = dm.find(open[x.m]); if (o && o->ex) fail(M + "state " + std::to_string(x.a) + " exited while state " + std::to_string(open[x.m]) + " is the one entered"); }
       open[x.m] = -1;
     } else if (x.kind == K_ACT) {
       const DState *s = dm.find(x.a);
@@ -382,7 +394,7 @@ struct Real {
 // enter/exit balance of the whole tree once the top machine has been stopped
 std::string balanceAtStop(const Real &R) {
   for (size_t m = 0; m < R.open.size(); ++m) {
-    if (R.open[m] < 0) continue;
+    if (R.open[m] == -1) continue;
     const DState *o = R.d->ms[m].find(R.open[m]);
     if (o && o->ex) return "top machine stopped, but state " + std::to_string(R.open[m]) + " of machine " + std::to_string(m) + " (nesting level " + std::to_string(R.d->ms[m].depth) + ") was entered and never exited";
   }
@@ -396,7 +408,7 @@ struct Driver {
   Def d; Ref ref; Real R;
   int skipped_running = 0, defs_between_lives = 0;
   bool route0_before_state0 = false, state0_between_lives = false, unknown_target_refused = false, init_before_state = false,
-       handler_replaced = false, handler_replaced_between_lives = false, dup_state = false, sub_replaced = false, init_twice = false,
+       negative_state = false, handler_replaced = false, handler_replaced_between_lives = false, dup_state = false, sub_replaced = false, init_twice = false,
        attach_between_lives = false, state_between_lives = false, route_between_lives = false;
   Driver() : ref(&d), R(&d) {}
 
@@ -422,7 +434,8 @@ struct Driver {
       case STATE: {
         int k = mach(op); DMach &m = d.ms[k];
         if (m.nnews >= kMaxNews) break;
-        int id = (int)op.in(1, 0, 5), fl = (int)op.in(2, 0, 3);
+        int id = kIds[op.in(1, 0, 7)], fl = (int)op.in(2, 0, 3);
+        if (id < 0) negative_state = true;
         bool dup = m.find(id) != nullptr;
         ++m.nnews;
         R.newState(k, id, fl, dup, dup ? ++m.find(id)->dups : 0);
@@ -454,8 +467,8 @@ struct Driver {
         int n = (int)m.states.size();
         if (!n) break;
         DState &st = m.states[op.in(1, 0, n - 1)];
-        DHandler h{(int)op.in(2, 0, 4), (int)op.in(3, 0, 5), (uint32_t)op.in(4, 0, 255), 0, false};
-        h.to_unknown_at_reg = h.to > 0 && !m.find(h.to);
+        DHandler h{(int)op.in(2, 0, 4), kTo[op.in(3, 0, 9)], (uint32_t)op.in(4, 0, 255), 0, false};
+        h.to_unknown_at_reg = h.to != 0 && !m.find(h.to);
         // a second addEvent() for the same (state, event) REPLACES the handler (specific events and the any-event
         // slot alike): the reference keeps the last one registered
         DHandler *old = nullptr;
@@ -467,7 +480,7 @@ struct Driver {
         break; }
       case INIT: {
         int k = mach(op); DMach &m = d.ms[k];
-        int v = (int)op.in(1, 0, 6), id = v == 6 ? kBadState : v;
+        int v = (int)op.in(1, 0, 8), id = v == 8 ? kBadState : kIds[v];
         // a nested machine must stay startable (a sub-machine that cannot start is outside the documented domain)
         if (k > 0 && !m.find(id)) break;
         R.setInit(k, id);
@@ -476,7 +489,7 @@ struct Driver {
         break; }
       case ATTACH: {
         int k = mach(op); DMach &m = d.ms[k];
-        if (k == 0 || m.attached_state >= 0 || !m.find(m.init_id)) break;
+        if (k == 0 || m.attached_state != -1 || !m.find(m.init_id)) break;
         DMach &p = d.ms[m.parent];
         // sel 0..5: a parent state that has no sub-machine yet; sel 6..11: any parent state -- setSubStateMachine()
         // on a state that already has one REPLACES it (the old sub-machine is detached and may be attached again later)
@@ -531,7 +544,7 @@ struct Driver {
     if (!e.empty()) return where + e;
     if (rres != xres) return where + "returned " + (rres ? "true" : "false") + ", reference " + (xres ? "true" : "false");
     for (int m = 0; m < (int)d.ms.size(); ++m) {
-      if (R.pend_enter[m] >= 0) return where + "machine " + std::to_string(m) + ": route action not followed by the enter action of state " + std::to_string(R.pend_enter[m]);
+      if (R.pend_enter[m] != -1) return where + "machine " + std::to_string(m) + ": route action not followed by the enter action of state " + std::to_string(R.pend_enter[m]);
       const RM &x = ref.ms[m]; StateMachine &s = *R.sm[m];
       std::string M = where + "machine " + std::to_string(m) + " (nesting level " + std::to_string(d.ms[m].depth) + "): ";
       if (s.currentState() != x.cur) return M + "currentState()=" + std::to_string(s.currentState()) + ", reference " + std::to_string(x.cur);
@@ -576,7 +589,7 @@ std::string run(const Scenario &scn, CaseInfo &info) {
   { std::string e = D.call(STOP, 0, ncalls, true); if (!e.empty()) return e; }   // every history ends with the top machine stopped
   // liveness / depth of the final tree
   std::vector<bool> live(d.ms.size(), false);
-  for (size_t k = 0; k < d.ms.size(); ++k) live[k] = k == 0 || (d.ms[k].attached_state >= 0 && live[d.ms[k].parent]);
+  for (size_t k = 0; k < d.ms.size(); ++k) live[k] = k == 0 || (d.ms[k].attached_state != -1 && live[d.ms[k].parent]);
   int maxdepth = 0; for (size_t k = 0; k < d.ms.size(); ++k) if (live[k] && d.ms[k].depth > maxdepth) maxdepth = d.ms[k].depth;
   info.cls_if(maxdepth >= 2, "def_depth>=2");
   info.cls_if(maxdepth >= 3, "def_depth=3");
@@ -618,6 +631,11 @@ std::string run(const Scenario &scn, CaseInfo &info) {
   info.cls_if(D.dup_state, "duplicate_newState_refused");
   info.cls_if(D.init_twice, "setInitState_called_again");
   info.cls_if(D.sub_replaced, "submachine_replaced_by_second_setSubStateMachine");
+  info.cls_if(D.negative_state, "state_with_negative_id_declared");
+  info.cls_if(ref.negative_state_entered, "state_with_negative_id_entered");
+  info.cls_if(ref.handler_picked_negative_state, "handler_picked_existing_negative_state");
+  info.cls_if(ref.negative_target_refused, "handler_picked_negative_id_that_is_not_a_state");
+  info.cls_if(ref.negative_refused_route_matches, "negative_handler_target_refused_while_a_route_matches");
   info.cls_if(ref.unknown_handler_target, "handler_picked_id_that_is_not_a_state");
   info.cls_if(ref.unknown_handler_target && ref.last_unknown_call + 1 < ncalls, "calls_after_refused_handler_target");
   info.cls_if(ref.late_declared_handler_target, "handler_target_declared_after_the_handler");
@@ -700,7 +718,7 @@ SubDef def = [] {
         int64_t sidx = rng(0, n - 1);
         if (!hreg[k].empty() && rng(0, 99) < reuse_pct) { auto &pr = hreg[k][rng(0, (int64_t)hreg[k].size() - 1)]; sidx = pr.first; ev = pr.second; }   // register again: replaces the handler
         hreg[k].push_back({sidx, ev});
-        int64_t to = pick({{1, 0}, {12, -1}, {3, -2}}); if (to == -1) to = ids[rng(0, (int64_t)ids.size() - 1)]; else if (to == -2) to = rng(1, 5);   // possibly a state declared later, or never
+        int64_t to = pick({{1, 0}, {14, -1}, {2, -2}, {1, -3}, {1, -4}}); if (to == -1) to = ids[rng(0, (int64_t)ids.size() - 1)]; else if (to == -2) to = rng(1, 5); else if (to == -3) to = rng(8, 9); else if (to == -4) to = rng(6, 7);   // a state (possibly declared later, possibly with a negative id), an id that is never one, -2 / -7
         int64_t tm = pick({{2, 0}, {1, 255}, {7, -1}}); if (tm < 0) tm = rng(0, 255);
         mk(HANDLER, {k, sidx, ev, to, tm});
       };
@@ -711,6 +729,7 @@ SubDef def = [] {
         int64_t base = rng(0, 4);
         std::vector<int64_t> ids;
         for (int i = 0; i < ns; ++i) ids.push_back((term && i == termpos) ? 0 : 1 + (base + i) % 5);
+        if (rng(0, 8) == 0) { int pos = (int)rng(0, ns - 1); if (ids[pos] != 0) ids[pos] = rng(6, 7); }   // op values 6, 7 = state ids -5, INT_MIN
         // items: 0..ns-1 = states, 100 = route, 101 = handler, 102 = setInitState, 103 = attach to the parent, 104 = duplicate state
         std::vector<int> items;
         int nr = (int)rng(2 * ns, 4 * ns), nh = (int)rng(0, ns + 1);
@@ -724,7 +743,7 @@ SubDef def = [] {
         if (rng(0, 19) == 0) items.push_back(104);
         auto shuffle = [&](size_t lo) { for (size_t i = items.size(); i > lo + 1; --i) std::swap(items[i - 1], items[lo + (size_t)rng(0, (int64_t)(i - 1 - lo))]); };
         shuffle(classic ? nstates_first : 0);
-        if (k == 0 && rng(0, 5) == 0) mk(INIT, {k, rng(0, 11) == 0 ? 6 : ids[rng(0, ns - 1)]});   // setInitState() before any newState()
+        if (k == 0 && rng(0, 5) == 0) mk(INIT, {k, rng(0, 11) == 0 ? 8 : ids[rng(0, ns - 1)]});   // setInitState() before any newState()
         mk(STATE, {k, ids[0], pick({{5, 3}, {1, 0}, {1, 1}, {1, 2}})}); declared[k].push_back(ids[0]);
         for (int it : items) {
           int n = (int)declared[k].size();
@@ -751,6 +770,7 @@ SubDef def = [] {
               case 0: {   // a new state (state 0 preferred when the machine has none), usually with a route out of it
                 std::vector<int64_t> missing;
                 for (int64_t id = 0; id <= 5; ++id) { bool have = false; for (auto x : declared[k]) if (x == id) have = true; if (!have) missing.push_back(id); }
+                if (rng(0, 7) == 0) for (int64_t id = 6; id <= 7; ++id) { bool have = false; for (auto x : declared[k]) if (x == id) have = true; if (!have) { missing.clear(); missing.push_back(id); } }
                 if (missing.empty()) break;
                 int64_t id = (missing[0] == 0 && rng(0, 1)) ? 0 : missing[rng(0, (int64_t)missing.size() - 1)];
                 mk(STATE, {k, id, pick({{6, 3}, {1, 0}, {1, 1}, {1, 2}})}); declared[k].push_back(id);
